@@ -65,7 +65,7 @@ def run(chk):
     lines, datas = [], []
     n = 900 if thorough else 300
     for i in range(n):
-        window = rng.choice([1024, 4096, 131072, 131072, 1 << 20])
+        window = rng.choice([1024, 4096, 131072, 131072, 1 << 20, 1000, 3000, 5000, 200000, 1000000])
         big = i % 25 == 0
         nframes = rng.choice([1, 1, 1, 2, 3])
         specs, ds = [], []
@@ -75,6 +75,30 @@ def run(chk):
             ds.append(d)
         lines.append('rencm 1 %d %s' % (window, '/'.join(specs)))
         datas.append((ds, window))
+    # pairs of nearly incompressible literal blocks with the same histogram order (the second is a permutation of the
+    # first): the first one's Huffman attempt is abandoned or its block stored raw at some point of the scan, and the
+    # second must then not refer to a table the decoder never received
+    for i in range(240 if thorough else 80):
+        pp = 0.10 + 0.30 * rng.below(1000) / 1000.0
+        nn = 1100 + rng.below(900)
+        B = encgen.weak_skew(rng, nn, pp)
+        C = B[::-1]
+        pre = rng.bytes(40)
+        variant = rng.below(3)
+        if variant == 0:
+            spec = '%s+%s+%s' % (encgen.block_spec(pre, []), encgen.block_spec(B, []), encgen.block_spec(C, []))
+            d = pre + B + C
+        elif variant == 1:
+            B2 = B + pre[5:8]
+            spec = '%s+%s+%s' % (encgen.block_spec(pre, []), encgen.block_spec(B2, [(nn, nn + 35, 3)]), encgen.block_spec(C, []))
+            d = pre + B2 + C
+        else:
+            spec = '%s+%s+%s+%s' % (encgen.block_spec(pre, []), encgen.block_spec(B, []), encgen.block_spec(rng.bytes(300), []), encgen.block_spec(C, []))
+            d = None
+        if d is None:
+            d = b''.join(unhex(b.split(':')[0]) for b in spec.split('+'))
+        lines.append('rencm 1 131072 %s' % spec)
+        datas.append(([d], 131072))
     # the recorded replays of repaired findings run first
     for fn in ('F5_rencm_line.txt', 'F9_rencm_line.txt'):
         try:
